@@ -146,7 +146,14 @@ class Builder:
             return r
         if route == "fromvalues":
             rows = " ".join(f"{fs(p)}:{vs(v)}" for p, v in spec.rows)
-            self.add(f"fromvalues {r} {cl} {vs(spec.init)} {rows}")
+            # the dtype of the Series handed to from_values: float (default), integer, boolean
+            opt = ""
+            vals_ = [v for _, v in spec.rows]
+            if all(v is not None and v in (0, 1) for v in vals_) and rng.random() < 0.4:
+                opt = " ;; vdtype=bool"
+            elif all(v is not None and Fraction(v).denominator == 1 for v in vals_) and rng.random() < 0.3:
+                opt = " ;; vdtype=int"
+            self.add(f"fromvalues {r} {cl} {vs(spec.init)} {rows}" + opt)
             return r
         # delta routes need a NaN-free function; NaN pieces are cut out afterwards by a mask
         base_init = spec.init if spec.init is not None else Fraction(0)
